@@ -47,8 +47,10 @@ PROPS = {
                     "and verified by Verus against the lexer invariant (position in bounds and on a character boundary) with every "
                     "emitted diagnostic span, label span and token span required to be inside the text, ordered and on character "
                     "boundaries; termination of every loop; no recursion; no arithmetic overflow; no out-of-bounds index. "
-                    "Diagnostics line/column index arithmetic likewise."),
-        "not_covered": ("spans fabricated by the parser and resolver (copied/merged from token spans), parser error recovery progress, "
+                    "Diagnostics line/column index arithmetic likewise.  Parser recovery (unit parser_progress): Parser::synchronize never moves "
+                    "backwards and terminates on every token sequence, and the expected-statement recovery arm of parse_statement consumes at "
+                    "least one token whenever one is left (so a statement loop cannot spin on a token no rule accepts)."),
+        "not_covered": ("spans fabricated by the parser and resolver (copied/merged from token spans), progress of the other parser loops (argument lists, blocks, expression continuation), "
                         "parser/resolver recursion depth, fmt-based rendering text, arena exhaustion while rendering very many diagnostics."),
         "trusted_base": [VERUS_TRUST, "three facts about valid UTF-8 (see unit scanner: utf8_ok, first_char, first_char_len)", "memchr_rs::memchr2 behaves as documented"],
     },
